@@ -15,7 +15,7 @@
 (***************************************************************************)
 EXTENDS TexMachine, TexContract, Json
 
-CONSTANTS Scopes,     \* sequence of [w |-> set of words (Seq(Char)), n |-> maximal number of words per source]
+CONSTANTS Scopes,     \* sequence of [w |-> set of words (Seq(Char)), n |-> maximal, m |-> minimal number of words per source]
           Sources,    \* set of complete sources (used instead of / besides the alphabet)
           UserSkip,   \* skip_envs option of every run
           DoB, DoC    \* BOOLEAN: perform the tolerant run / the re-parse run (a check that does not need one saves the states)
@@ -36,7 +36,7 @@ Extend == /\ run = "gen" /\ scope > 0 /\ nwords < Scopes[scope].n
 
 StartA(src) == /\ ResetRun(src, 0, UserSkip) /\ src0' = src /\ run' = "A" /\ nwords' = 0 /\ scope' = 0
                /\ UNCHANGED <<resA, resB, devs>>
-Start == /\ run = "gen" /\ scope > 0 /\ StartA(input)
+Start == /\ run = "gen" /\ scope > 0 /\ nwords >= Scopes[scope].m /\ StartA(input)
 Pick == /\ run = "gen" /\ scope = 0 /\ input = <<>> /\ nwords = 0 /\ \E s \in Sources : StartA(s)
 
 (* deviations of the current run that matter for side conditions *)
